@@ -96,3 +96,18 @@ PROPS["C13"] = dict(
           "distinct = distinct case text."),
     assumptions=["state numbers passed to the API are in range (its FIXME says it does not check)", "arc log-probabilities are <= 0"],
 )
+
+PROPS["C15"] = dict(
+    harness="ep",
+    wrap=["vad_classify"],
+    level="exploration",
+    technique="model-based stateful property testing: generated speech/non-speech decision histories (vad_classify interposed with --wrap) vs a queue/state-machine reference model",
+    level_text="The voice-activity classifier is replaced at link time by generated decision sequences (runs biased around the window length); every endpointer_process call, the in-speech flag, start/end times and endpointer_end_stream are compared with a reference deque model; frames carry serial numbers so identity, order, gaps, repeats and byte-exactness are decided. Exploration over histories and configurations.",
+    level_note="Trusted: the 60-line reference model (thresholds recomputed from window/ratio with the documented formulas), ASan on exact-size input frames. The real WebRTC classifier is bypassed by design: the property quantifies over decision sequences.",
+    quick=dict(cases=20000, maxlen=700, budget=90),
+    thorough=dict(cases=300000, maxlen=700, budget=900),
+    rule=("choices decode to (sample rate, frame length, window 2-40 frames, ratio incl. values that let speech start before the window fills, "
+          "0-400 decisions generated as runs, end-of-stream point and trailing partial frame length). Non-trivial = at least one segment and the "
+          "stream is longer than the window; distinct = distinct case text."),
+    assumptions=["decisions are 0/1 (what vad_classify returns without error)"],
+)
